@@ -35,6 +35,16 @@ import (
 
 // havoc stub for the child VM of CHECKPREDICATE (solver only)
 func verifC07ChildRun(vm *virtualMachine) error {
+	if vm.runLimit < 0 {
+		// outside the lemma's precondition (never reached on a correct tree): a VM entered with a
+		// negative limit cannot pay for any instruction: its first applyCost fails and zeroes the
+		// limit; an empty program returns at once with the state unchanged
+		if verifBool("child.err") {
+			vm.runLimit = 0
+			return ErrRunLimitExceeded
+		}
+		return nil
+	}
 	phi := vm.runLimit + stackCost(vm.dataStack) + stackCost(vm.altStack)
 	r := verifI64("child.runLimit")
 	n := verifChoice("child.nstack", 3)
